@@ -109,7 +109,10 @@ def body(case, rec):
     except Exception as ex:
         if meshdrive.exc_site(ex) == 'harness':
             raise
-        rec.violation(B('constructor'), {'error': repr(ex)}, case)
+        if is_poly:
+            rec.exclude('polygon_rejected_by_constructor')
+        else:
+            rec.violation(B('constructor'), {'error': repr(ex)}, case)
         return
     rec.cls('curve_' + (g.name))
     # --- pieces
